@@ -370,14 +370,19 @@ pub fn run_writer(spec: &FileSpec, sink: &SimSink, mut observe: impl FnMut(&Step
 		run_prelude(spec, &env, &mut config);
 	}
 	let built = catch(|| {
-		match owned_slot.take() {
+		let b = match owned_slot.take() {
 			Some(c) => WriterBuilder::with_owned_config(c),
 			None => WriterBuilder::new(&mut config),
 		}
 			.compression(to_crate_compression(spec.codec))
 			.approx_block_size(spec.approx_block_size)
-			.sync_marker(spec.sync)
-			.build_with_user_metadata(sink.clone(), meta)
+			.sync_marker(spec.sync);
+		// (without user metadata: through `build` in half of the files, `build_with_user_metadata` of an empty map otherwise)
+		if spec.user_meta.is_empty() && spec.sync[0] % 2 == 0 {
+			b.build(sink.clone())
+		} else {
+			b.build_with_user_metadata(sink.clone(), meta)
+		}
 	});
 	let step_poison = std::cell::Cell::new(false);
 	let mut push_step = |run: &mut WriterRun, op: usize, res: Result<(), String>, panicked: Option<String>| {
